@@ -230,9 +230,58 @@ def coq_check_properties(ctx, prop_file, deps_extra=(), timeout=1500):
             okax = False
             ctx.proof["failed"].append({"what": "theorem depends on a non-standard-library axiom",
                                         "theorem": name, "axiom": a})
+    if okax and ctx.tier == "thorough" and os.environ.get("VERIF_NO_COQCHK") != "1":
+        okax = coqchk_property(ctx, pf) and okax
     if okax:
         ctx.proof["discharged"] = len(theorems)
     return okax
+
+
+def coqchk_property(ctx, pf):
+    """thorough tier: re-check the compiled property file and everything it depends on with the independent checker
+    (coqchk -o), record the axioms of the whole loaded context, fail on anything outside the standard-library allow-list."""
+    mod = "Draco." + pf[:-2].replace("/", ".")
+    with open(os.path.join(ROOT, ".cache", "lock-" + os.path.basename(COQ)), "w") as lk:
+        import fcntl
+        fcntl.flock(lk, fcntl.LOCK_EX)
+        rc, out = sh(["coqchk", "-o", "-silent", "-Q", ".", "Draco", mod], cwd=COQ, timeout=3600)
+    axs = []
+    m = re.search(r"\* Axioms:(.*?)\n\s*\n\* Constants/Inductives relying on type-in-type:(.*?)\n\s*\n\* Constants/Inductives relying on unsafe \(co\)fixpoints:(.*?)\n\s*\n\* Inductives whose positivity is assumed:(.*?)\n", out, re.S)
+    rec = {"cmd": "coqchk -o -silent -Q . Draco " + mod, "exit": rc}
+    if m:
+        axs = [a.strip() for a in m.group(1).split("\n") if a.strip() and a.strip() != "<none>"]
+        rec.update({"axioms_of_loaded_context": axs, "type_in_type": m.group(2).strip(), "unsafe_fixpoints": m.group(3).strip(),
+                    "assumed_positivity": m.group(4).strip()})
+    ctx.proof["coqchk"] = rec
+    bad = [a for a in axs if not (a.split(".")[-1] in [x.split(".")[-1] for x in ALLOWED_AXIOMS] or a.startswith(PRIMITIVE_PREFIXES))]
+    relaxed = m and any(m.group(i).strip() != "<none>" for i in (2, 3, 4))
+    if rc != 0 or not m or bad or relaxed:
+        ctx.proof["failed"].append({"what": "coqchk rejected the compiled development or found a non-allowed axiom / relaxed check",
+                                    "axioms": bad, "output": out[-1500:]})
+        return False
+    return True
+
+
+def coq_check_many(ctx, prop_files):
+    """coq_check_properties over several property files (a property's own file + the files of its sub-checks):
+    obligations / theorems / axioms accumulate; ok iff every file checks."""
+    ok_all = True
+    acc = {"obligations": 0, "discharged": 0, "theorems": [], "axioms": {}, "failed": list(ctx.proof["failed"])}
+    for pf in prop_files:
+        ctx.proof = {"obligations": 0, "discharged": 0, "theorems": [], "axioms": {}, "failed": []}
+        ok = coq_check_properties(ctx, pf)
+        ok_all = ok_all and ok
+        acc["obligations"] += ctx.proof["obligations"]
+        acc["discharged"] += ctx.proof["discharged"] if ok else 0
+        acc["theorems"] += ctx.proof["theorems"]
+        acc["axioms"].update(ctx.proof["axioms"])
+        acc["failed"] += [dict(f, property_file=pf) for f in ctx.proof["failed"]]
+        if ctx.proof.get("coqchk"):
+            acc.setdefault("coqchk_all", []).append(ctx.proof["coqchk"])
+    if "coqchk_all" in acc:
+        acc["coqchk"] = {"cmd": " && ".join(c["cmd"] for c in acc["coqchk_all"]), "runs": acc.pop("coqchk_all")}
+    ctx.proof = acc
+    return ok_all
 
 
 def parse_assumptions(out):
@@ -455,6 +504,9 @@ def finish(ctx, level="proof", extra_cov=None, assumptions=None):
         "theorems": ctx.proof["theorems"],
         "proof_failures": ctx.proof["failed"],
     })
+    if ctx.proof.get("coqchk"):
+        cov["coqchk"] = ctx.proof["coqchk"]
+        cov["checker_cmd"] += " && " + ctx.proof["coqchk"]["cmd"]
     if extra_cov:
         cov.update(extra_cov)
     cov.setdefault("evaluations", 0)
@@ -469,7 +521,8 @@ def finish(ctx, level="proof", extra_cov=None, assumptions=None):
         "violations": len(ctx.violations),
         "known_findings_reported": ctx.known,
     }
-    evdir = os.path.join(ROOT, "evidence") if REPO == "/repo" else BUILD   # scratch trees never touch the real evidence
+    # scratch trees never touch the real evidence; sub-check modules (KD, PRED, EB: not property ids) run standalone write to the work dir
+    evdir = os.path.join(ROOT, "evidence") if (REPO == "/repo" and re.fullmatch(r"C\d\d", ctx.prop)) else BUILD
     json.dump(ev, open(os.path.join(evdir, ctx.prop + ".json"), "w"), indent=1)
     for k in ctx.known:
         print("KNOWN-FINDING: property=%s %s" % (ctx.prop, k))
@@ -514,6 +567,45 @@ def standard_decide(ctx, proof_ok, corr, search_fails, classify=None):
 
 
 # ----------------------------------------------------------------------------- standard flow
+def run_corr_runs(ctx, lib, all_runs):
+    """all_runs: [(owner module, run dict)].  Builds driver + harness of every run, runs them, compares.
+    -> (corr [(tag, n, mismatches, cases_path)], fails [(tag, lineno, line)], evaluations, distinct, samples, kinds, drivers_ok)"""
+    drv_ok = True
+    corr = []
+    fails_all = []
+    tot = 0
+    distinct = 0
+    samples = []
+    kinds = {}
+    for owner, r in all_runs:
+        fl = r.get("flavour", "O1")
+        libdir = lib if fl == "O1" else build_repo(ctx, fl)
+        drv = None
+        try:
+            if r.get("driver"):
+                drv = build_driver(ctx, r["driver"], needs_vo=r.get("needs_vo", ()))
+        except BuildFailure as e:
+            # the model no longer builds (e.g. a regenerated definition broke it): the tie is broken, but the
+            # search on the implementation still runs so that a concrete failing input can be reported
+            ctx.say("model driver does not build:", e)
+            ctx.proof["failed"].append({"what": "model/driver build failed", "error": (getattr(e, "out", "") or "")[-2500:]})
+            drv_ok = False
+        h = build_harness(ctx, r["harness"], libdir, fl, extra=r.get("cxx_extra", ()))
+        n, mism, fails, cases = run_cases(ctx, h, drv, r["args"], r["tag"], timeout=r.get("timeout", 900), env=r.get("env"))
+        ctx.say("%s: %d cases, %d disagreements, %d direct failures" % (r["tag"], n, len(mism), len(fails)))
+        corr.append((r["tag"], n, mism, cases))
+        pref = getattr(owner, "FAIL_PREFIXES", None)   # a harness shared by several properties tags its '!' lines; each check takes its own
+        if pref is not None:
+            fails = [(l, t) for (l, t) in fails if any(t.startswith("! " + p) for p in pref)]
+        fails_all += [(r["tag"], l, t) for (l, t) in fails]
+        tot += n
+        distinct += distinct_count(cases, getattr(owner, "nontrivial", lambda l: True))
+        samples += sample_lines(cases, 4)
+        for k, v in kind_histogram(cases).items():
+            kinds[k] = kinds.get(k, 0) + v
+    return corr, fails_all, tot, distinct, samples, kinds, drv_ok
+
+
 def standard_run(ctx, mod):
     """The flow shared by most properties.  The props module provides:
        PROP_FILE            Properties_<id>.v
@@ -528,49 +620,23 @@ def standard_run(ctx, mod):
     pre = getattr(mod, "pre", None)
     if pre:
         pre(ctx, lib)
-    proof_ok = coq_check_properties(ctx, mod.PROP_FILE)
+    import importlib
+    subs = [importlib.import_module(n) for n in getattr(mod, "SUBCHECKS", [])]   # model layers checked as part of this property
+    proof_ok = coq_check_many(ctx, [mod.PROP_FILE] + [s.PROP_FILE for s in subs])
     ctx.say("proofs: %d/%d %s" % (ctx.proof["discharged"], ctx.proof["obligations"], "ok" if proof_ok else "BROKEN"))
     if not proof_ok:
         ctx.say(json.dumps(ctx.proof["failed"], indent=1)[:3000])
-    corr = []
-    fails_all = []
-    tot = 0
-    distinct = 0
-    samples = []
-    kinds = {}
-    for r in mod.corr_runs(ctx):
-        fl = r.get("flavour", "O1")
-        libdir = lib if fl == "O1" else build_repo(ctx, fl)
-        drv = None
-        try:
-            if r.get("driver"):
-                drv = build_driver(ctx, r["driver"], needs_vo=r.get("needs_vo", ()))
-        except BuildFailure as e:
-            # the model no longer builds (e.g. a regenerated definition broke it): the tie is broken, but the
-            # search on the implementation still runs so that a concrete failing input can be reported
-            ctx.say("model driver does not build:", e)
-            ctx.proof["failed"].append({"what": "model/driver build failed", "error": (getattr(e, "out", "") or "")[-2500:]})
-            proof_ok = False
-        h = build_harness(ctx, r["harness"], libdir, fl, extra=r.get("cxx_extra", ()))
-        n, mism, fails, cases = run_cases(ctx, h, drv, r["args"], r["tag"], timeout=r.get("timeout", 900), env=r.get("env"))
-        ctx.say("%s: %d cases, %d disagreements, %d direct failures" % (r["tag"], n, len(mism), len(fails)))
-        corr.append((r["tag"], n, mism, cases))
-        pref = getattr(mod, "FAIL_PREFIXES", None)   # a harness shared by several properties tags its '!' lines; each check takes its own
-        if pref is not None:
-            fails = [(l, t) for (l, t) in fails if any(t.startswith("! " + p) for p in pref)]
-        fails_all += [(r["tag"], l, t) for (l, t) in fails]
-        tot += n
-        distinct += distinct_count(cases, getattr(mod, "nontrivial", lambda l: True))
-        samples += sample_lines(cases, 4)
-        for k, v in kind_histogram(cases).items():
-            kinds[k] = kinds.get(k, 0) + v
+    all_runs = [(mod, r) for r in mod.corr_runs(ctx)] + [(s, r) for s in subs for r in s.corr_runs(ctx)]
+    corr, fails_all, tot, distinct, samples, kinds, drv_ok = run_corr_runs(ctx, lib, all_runs)
+    proof_ok = proof_ok and drv_ok
     ctx.cov.update({"evaluations": tot, "distinct_nontrivial": distinct, "traces_validated_against_impl": tot,
-                    "rule": mod.RULE, "samples": samples[:12], "kinds": kinds,
+                    "rule": mod.RULE + "".join(" || sub-check %s: %s" % (s.__name__, s.RULE) for s in subs), "samples": samples[:12], "kinds": kinds,
                     "disagreements": sum(len(m) for (_, _, m, _) in corr),
                     "direct_failures": len(fails_all)})
-    extra = getattr(mod, "extra", None)
-    if extra:
-        extra(ctx, lib)
+    for m_ in [mod] + subs:
+        extra = getattr(m_, "extra", None)
+        if extra:
+            extra(ctx, lib)
     standard_decide(ctx, proof_ok, corr, fails_all, getattr(mod, "classify", None))
 
 
@@ -584,12 +650,14 @@ def standard_replay(ctx, mod, path):
     ctx.seed = r.get("seed", ctx.seed)
     ctx.tier = r.get("tier", ctx.tier)
     lib = build_repo(ctx, "O1")
-    for run in mod.corr_runs(ctx):
+    import importlib
+    subs = [importlib.import_module(n) for n in getattr(mod, "SUBCHECKS", [])]
+    for run in list(mod.corr_runs(ctx)) + [x for s_ in subs for x in s_.corr_runs(ctx)]:
         if run["harness"] != r.get("harness") and run["tag"] != r.get("harness"):
             continue
-        drv = build_driver(ctx, run["driver"], needs_vo=run.get("needs_vo", ()))
+        drv = build_driver(ctx, run["driver"], needs_vo=run.get("needs_vo", ())) if run.get("driver") else None
         h = build_harness(ctx, run["harness"], lib, run.get("flavour", "O1"))
-        n, mism, fails, cases = run_cases(ctx, h, drv, run["args"], "replay")
+        n, mism, fails, cases = run_cases(ctx, h, drv, run["args"], "replay", timeout=run.get("timeout", 900), env=run.get("env"))
         if r["kind"] == "search":
             want = r.get("case", "")
             still = [x for x in fails if x[1] == want]
